@@ -110,10 +110,21 @@ func (re *remainderExprNode) Run(ctx context.Context, currField string, tagExpr 
 
 // equalValues is a == b; values of a type that Go cannot compare with == (slices, maps,
 // values of fields of those kinds) are compared by content instead of panicking.
-func equalValues(a, b interface{}) bool {
+func equalValues(a, b interface{}) (eq bool) {
 	if t := reflect.TypeOf(a); t != nil && !t.Comparable() {
 		return reflect.DeepEqual(a, b)
 	}
+	switch a.(type) {
+	case nil, float64, string, bool:
+		return a == b
+	}
+	// A struct or an array whose type is comparable may still hold an uncomparable value
+	// behind an interface member (a JSON array in an interface{} field): == panics then.
+	defer func() {
+		if recover() != nil {
+			eq = reflect.DeepEqual(a, b)
+		}
+	}()
 	return a == b
 }
 
